@@ -156,4 +156,11 @@ var props = []Prop{
 		Bounds:  "self-composition: two freshly created worlds (recording listeners and a registered filter installed) receive the same prefix (3, thorough 6) and the same 1 (thorough 2) operation(s) out of 9 kinds (creation, creation with target, removal, exchange, retarget, batch removal by filter, batch creation, Reset, batch exchange) with arguments picked once; handles, event sequences, query iteration order for 6 filters (plain and registered) and entity dumps must be equal in both worlds; in the engine every range over a map picks its next entry by a solver-chosen index, independently in the two worlds, so a dependence on map order yields a concrete witness order (replayed natively 50 times, Go randomises map iteration); the SSA census of map-range sites, pointer-to-integer conversions, go/select statements and time/rand callees in the four library packages is reported in the evidence",
 		Outside: "garbage-collection timing and cross-process effects other than map iteration order (the engine has no collector and one process); ordering by address is covered only by the census (no pointer-to-integer conversion exists in the library)",
 	},
+	{
+		ID: "C14",
+		Harnesses: []H{{Pkg: "ecs", Fn: "HC14_Pointers"}, {Pkg: "ecs", Fn: "HC14_Pointers", Tags: "tiny", Tier: "thorough"}},
+		Conform: []H{{Pkg: "ecs", Fn: "HSmoke"}},
+		Bounds:  "REDUCED SCOPE: necessary storage-discipline conditions, not GC schedules. A world with pointer-carrying components in tables [P], [A,P] and a relation table, then 2 (thorough 3) symbolic operations out of 12: creation (growth), write through Get, Set, Assign, move by add/remove of other components, removal of the component, removal of entities (swap-remove), batch move, relation move, Reset, batch removal, children with pointer components; decided in the engine for every path: (N1/N2) every pointer-carrying value written by the library - by typed stores, raw byte copies, reflect.Copy - lands in memory whose allocation type has a pointer word at that offset (what the collector scans), no raw copy cuts a pointer, (N3) storage beyond a table's length and all storage of retired / reset tables is zero, components keep the exact pointer last written and the referent's value; 2 configurations (thorough 24). Native replay of a counterexample additionally sets finalizers and forces collections: referents of live components must survive, all others must be collected.",
+		Outside: "write barriers, concurrent marking, escape analysis and GC timing (properties of the Go runtime and compiler, not present at go/ssa level); transient states inside one operation (N4 of the design: ordering of zeroing and copying between safepoints) are not checked",
+	},
 }
